@@ -1,2 +1,527 @@
 (* FetchProofs.v — lemmas about model/Fetch.v (C02). *)
 From Verif Require Import model.Base model.Fetch.
+From Coq Require Import Sorting.Sorted Lia.
+
+(* ------------------------------------------------------------------ *)
+(* trial table                                                          *)
+(* ------------------------------------------------------------------ *)
+Lemma upd_length i f l : length (upd i f l) = length l.
+Proof. revert i; induction l as [|t l IH]; intros [|i]; simpl; auto. Qed.
+
+Lemma nth_upd_same i f l t : nth_error l i = Some t -> nth_error (upd i f l) i = Some (f t).
+Proof. revert i; induction l as [|x l IH]; intros [|i]; simpl; intros H; try discriminate; auto. congruence. Qed.
+
+Lemma nth_upd_other i j f l : i <> j -> nth_error (upd i f l) j = nth_error l j.
+Proof. revert i j; induction l as [|x l IH]; intros [|i] [|j] H; simpl; auto; try congruence. Qed.
+
+Lemma nth_upd_none i f l : nth_error l i = None -> upd i f l = l.
+Proof. revert i; induction l as [|x l IH]; intros [|i]; simpl; intros H; try discriminate; auto. f_equal; auto. Qed.
+
+Lemma nth_upd_inv i j f l t' : nth_error (upd i f l) j = Some t' ->
+  (i <> j /\ nth_error l j = Some t') \/ (i = j /\ exists t, nth_error l j = Some t /\ t' = f t).
+Proof.
+  intros H. destruct (Nat.eq_dec i j) as [->|N].
+  - right. split; auto. destruct (nth_error l j) eqn:E.
+    + rewrite (nth_upd_same _ _ _ _ E) in H. inversion H. eauto.
+    + rewrite (nth_upd_none _ _ _ E) in H. congruence.
+  - left. rewrite nth_upd_other in H; auto.
+Qed.
+
+(* ------------------------------------------------------------------ *)
+(* stable sort keeps the order of every trial's own results              *)
+(* ------------------------------------------------------------------ *)
+Definition rle (a b : rep) : Prop := (rts a <= rts b)%Q.
+Definition is_id (j : nat) (x : nat * rep) : bool := Nat.eqb (fst x) j.
+Definition pend_of (j : nat) (b : list (nat * rep)) : list rep := map snd (filter (is_id j) b).
+
+Lemma pend_of_app j a b : pend_of j (a ++ b) = pend_of j a ++ pend_of j b.
+Proof. unfold pend_of. rewrite filter_app, map_app. reflexivity. Qed.
+
+Lemma pend_of_pair_same j l : pend_of j (map (pair j) l) = l.
+Proof. unfold pend_of. induction l; simpl; auto. unfold is_id at 1; simpl. rewrite Nat.eqb_refl. simpl. f_equal; auto. Qed.
+
+Lemma pend_of_pair_other i j l : i <> j -> pend_of j (map (pair i) l) = [].
+Proof.
+  intros N. unfold pend_of. induction l; simpl; auto. unfold is_id at 1; simpl.
+  destruct (Nat.eqb_spec i j); [contradiction|]. auto.
+Qed.
+
+Lemma pend_of_single j z : pend_of j [z] = if is_id j z then [snd z] else [].
+Proof. unfold pend_of. simpl. destruct (is_id j z); reflexivity. Qed.
+
+Lemma pend_of_cons j z l : pend_of j (z :: l) = pend_of j [z] ++ pend_of j l.
+Proof. change (z :: l) with ([z] ++ l). apply pend_of_app. Qed.
+
+Definition key_sorted (l : list (nat * rep)) : Prop := StronglySorted (fun a b => rle (snd a) (snd b)) l.
+
+Lemma ins_in x l y : In y (ins x l) <-> x = y \/ In y l.
+Proof.
+  induction l as [|z l IH]; simpl; [tauto|].
+  destruct (Qltb (rts (snd z)) (rts (snd x))); simpl; rewrite ?IH; tauto.
+Qed.
+
+Lemma sort_in l y : In y (sort_ts l) <-> In y l.
+Proof. induction l as [|x l IH]; simpl; [tauto|]. rewrite ins_in, IH. tauto. Qed.
+
+Lemma ins_sorted x l : key_sorted l -> key_sorted (ins x l).
+Proof.
+  unfold key_sorted. induction 1 as [|z l Hs IH Hz]; simpl.
+  - constructor; constructor.
+  - destruct (Qltb (rts (snd z)) (rts (snd x))) eqn:E.
+    + constructor; auto. apply Forall_forall. intros y Hy. apply ins_in in Hy as [<-|Hy].
+      * apply Qltb_lt in E. unfold rle. apply Qlt_le_weak; auto.
+      * rewrite Forall_forall in Hz; auto.
+    + assert (Hxz : rle (snd x) (snd z)).
+      { unfold rle. destruct (Qlt_le_dec (rts (snd z)) (rts (snd x))) as [L|L]; auto.
+        apply Qltb_lt in L. congruence. }
+      constructor; [constructor; auto|]. constructor; auto.
+      apply Forall_forall. intros y Hy. rewrite Forall_forall in Hz. specialize (Hz y Hy).
+      unfold rle in *. eapply Qle_trans; eauto.
+Qed.
+
+Lemma sort_sorted l : key_sorted (sort_ts l).
+Proof. induction l; simpl; [constructor|]. apply ins_sorted; auto. Qed.
+
+(* inserting x: the j-entries keep their order, x first if it is one of them — provided x
+   is not later than any j-entry already there *)
+Lemma pend_of_ins j x l : key_sorted l ->
+  (is_id j x = true -> forall y, In y l -> is_id j y = true -> rle (snd x) (snd y)) ->
+  pend_of j (ins x l) = pend_of j [x] ++ pend_of j l.
+Proof.
+  unfold key_sorted. induction 1 as [|z l Hs IH Hz]; intros Hx.
+  { simpl. rewrite app_nil_r. reflexivity. }
+  simpl. destruct (Qltb (rts (snd z)) (rts (snd x))) eqn:E.
+  - rewrite (pend_of_cons j z (ins x l)), (pend_of_cons j z l).
+    rewrite IH by (intros; apply Hx; simpl; auto).
+    rewrite !pend_of_single.
+    destruct (is_id j x) eqn:Ex.
+    + assert (is_id j z = false) as Ez.
+      { destruct (is_id j z) eqn:Ez; auto. specialize (Hx eq_refl z (or_introl eq_refl) Ez).
+        apply Qltb_lt in E. unfold rle in Hx. exfalso. eapply Qlt_not_le; eauto. }
+      rewrite Ez. reflexivity.
+    + reflexivity.
+  - rewrite (pend_of_cons j x (z :: l)). reflexivity.
+Qed.
+
+Lemma pend_of_sort j l : StronglySorted rle (pend_of j l) -> pend_of j (sort_ts l) = pend_of j l.
+Proof.
+  induction l as [|x l IH]; simpl; auto. intros Hs.
+  rewrite pend_of_cons in Hs. rewrite pend_of_single in Hs.
+  rewrite pend_of_ins.
+  - rewrite (pend_of_cons j x l). f_equal. apply IH.
+    destruct (is_id j x); simpl in Hs; [inversion Hs; assumption | assumption].
+  - apply sort_sorted.
+  - intros Ex y Hy Ey. apply (proj1 (sort_in _ _)) in Hy.
+    rewrite Ex in Hs. simpl in Hs. inversion Hs as [|a b Hb Hall]; subst.
+    rewrite Forall_forall in Hall. apply Hall. unfold pend_of. apply in_map. apply filter_In. split; assumption.
+Qed.
+
+(* ------------------------------------------------------------------ *)
+(* per-trial invariant of the generic poll-based logic                   *)
+(* ------------------------------------------------------------------ *)
+Local Open Scope nat_scope.
+Definition em (t : tr) : list rep := skipn (base t) (log t).     (* what the current run wrote so far *)
+Definition pre_ok (t : tr) : Prop :=
+  length (dcur t) <= length (em t) /\ dcur t = firstn (length (dcur t)) (em t).
+Definition run_ok (r : list rep * list rep * fstat) : Prop :=
+  (exists k, snd (fst r) = firstn k (fst (fst r))) /\ (snd r = DoneOk -> snd (fst r) = fst (fst r)).
+
+Definition tinv (t : tr) (pend : list rep) : Prop :=
+  base t <= length (log t) /\ seen t <= length (log t) /\ cur t = em t ++ todo t /\
+  StronglySorted rle (cur t) /\
+  (cstat t = Paused -> mark t = PauseMark) /\ (proc t = ExitOk -> todo t = []) /\
+  Forall run_ok (past t) /\
+  match fin t with
+  | Live => mark t = NoMark /\ seen t = base t + length (dcur t) + length pend /\
+            dcur t ++ pend = firstn (length (dcur t) + length pend) (em t)
+  | Decided => pre_ok t /\
+               (mark t = StopMark \/
+                (mark t = PauseMark /\ seen t = length (log t) /\ proc t <> Running) \/
+                (mark t = NoMark /\ seen t = length (log t) /\ proc t = ExitOk))
+  | DoneOk => mark t = NoMark /\ proc t = ExitOk /\ seen t = length (log t) /\ dcur t = cur t
+  | DoneFail => mark t = NoMark /\ proc t = ExitFail /\ seen t = length (log t) /\ pre_ok t
+  end.
+
+Lemma tinv_pend_irrel t p p' : fin t <> Live -> tinv t p -> tinv t p'.
+Proof. unfold tinv. destruct (fin t); intros N H; try exact H. congruence. Qed.
+
+Lemma skipn_app_le {A} n (l1 l2 : list A) : n <= length l1 -> skipn n (l1 ++ l2) = skipn n l1 ++ l2.
+Proof. intros H. rewrite skipn_app. replace (n - length l1) with 0 by lia. reflexivity. Qed.
+
+Lemma firstn_app_le {A} n (l1 l2 : list A) : n <= length l1 -> firstn n (l1 ++ l2) = firstn n l1.
+Proof. intros H. rewrite firstn_app. replace (n - length l1) with 0 by lia. simpl. apply app_nil_r. Qed.
+
+Lemma firstn_skipn_len {A} (l : list A) n : n <= length l -> length (skipn n l) = length l - n.
+Proof. intros. apply skipn_length. Qed.
+
+(* the worker writes [new] (any process state afterwards) *)
+Lemma tinv_write t new rest p :
+  tinv t [] -> proc t = Running -> todo t = new ++ rest -> (p = ExitOk -> rest = []) ->
+  tinv (t_write Generic new rest p t) [].
+Proof.
+  unfold tinv, t_write, pre_ok, em. destruct t as [lg td pr mk sn cs nr cu dc bs fn pa]; simpl.
+  intros (Hb & Hs & Hc & Hso & Hcs & Hpt & Hpa & Hf) Hp Ht Hr. subst pr.
+  rewrite skipn_app_le by lia. rewrite app_length.
+  repeat split; try lia; auto.
+  - rewrite Hc, Ht, app_assoc. reflexivity.
+  - destruct fn.
+    + destruct Hf as (Hm & Hse & Hd). simpl in *. repeat split; auto.
+      rewrite app_nil_r in *. rewrite Nat.add_0_r in *.
+      rewrite firstn_app_le; auto. rewrite skipn_length. lia.
+    + destruct Hf as ((Hl & Hd) & Hm). split.
+      * split; [rewrite ?app_length; lia|]. rewrite firstn_app_le; auto.
+      * destruct Hm as [Hm|[(Hm & _ & Hn)|(Hm & _ & Hn)]]; [left; auto | congruence | congruence].
+    + destruct Hf as (_ & Hn & _). congruence.
+    + destruct Hf as (_ & Hn & _). congruence.
+Qed.
+
+Lemma firstn_skipn_todo (l : list rep) k : l = firstn k l ++ skipn k l.
+Proof. symmetry. apply firstn_skipn. Qed.
+
+Lemma tinv_emit t k : tinv t [] -> tinv (t_emit Generic k t) [].
+Proof.
+  intros H. unfold t_emit. destruct (proc t) eqn:E; auto.
+  apply tinv_write; auto. apply firstn_skipn_todo. congruence.
+Qed.
+Lemma tinv_finish t : tinv t [] -> tinv (t_finish Generic t) [].
+Proof.
+  intros H. unfold t_finish. destruct (proc t) eqn:E; auto.
+  apply tinv_write; auto. symmetry; apply app_nil_r.
+Qed.
+Lemma tinv_fail t k : tinv t [] -> tinv (t_fail Generic k t) [].
+Proof.
+  intros H. unfold t_fail. destruct (proc t) eqn:E; auto.
+  apply tinv_write; auto. apply firstn_skipn_todo. congruence.
+Qed.
+
+Lemma tinv_new reps : StronglySorted rle reps -> tinv (new_trial reps) [].
+Proof.
+  intros H. unfold tinv, new_trial, em; simpl. repeat split; auto; try congruence.
+Qed.
+
+Lemma is_prefix_cur t : cur t = em t ++ todo t -> pre_ok t -> exists k, dcur t = firstn k (cur t).
+Proof.
+  intros Hc (Hl & Hd). exists (length (dcur t)). rewrite Hc, firstn_app_le; auto.
+Qed.
+
+(* resume_trial of a trial whose cached status is paused *)
+Lemma tinv_resume t reps :
+  tinv t [] -> cstat t = Paused -> StronglySorted rle reps -> tinv (t_resume reps t) [].
+Proof.
+  unfold tinv. intros (Hb & Hs & Hc & Hso & Hcs & Hpt & Hpa & Hf) Hp Hr.
+  specialize (Hcs Hp).
+  assert (Hfin : fin t = Decided /\ pre_ok t /\ seen t = length (log t)).
+  { destruct (fin t); try (destruct Hf as (Hm & _); congruence).
+    destruct Hf as (Hpre & [Hm|[(Hm & Hse & _)|(Hm & _)]]); try congruence. auto. }
+  destruct Hfin as (Hfd & Hpre & Hse).
+  unfold t_resume, em; simpl. rewrite Hcs. rewrite skipn_all. simpl.
+  repeat split; auto; try congruence; try lia.
+  apply Forall_app; split; auto. constructor; [|constructor].
+  split; simpl; [apply is_prefix_cur; auto | rewrite Hfd; congruence].
+Qed.
+
+(* ---- the decision taken for a delivered result --------------------------------------- *)
+Lemma app_firstn_split {A} (a b l : list A) :
+  a ++ b = firstn (length a + length b) l -> length a + length b <= length l ->
+  a = firstn (length a) l.
+Proof.
+  intros H Hl. assert (E : firstn (length a) (a ++ b) = a).
+  { rewrite firstn_app, Nat.sub_diag, firstn_all. simpl. apply app_nil_r. }
+  rewrite <- E at 1. rewrite H. rewrite firstn_firstn. f_equal. lia.
+Qed.
+
+Lemma tinv_deliver t r p : tinv t (r :: p) -> fin t = Live -> tinv (t_deliver r t) p.
+Proof.
+  unfold tinv, t_deliver, pre_ok, em. destruct t as [lg td pr mk sn cs nr cu dc bs fn pa]; simpl.
+  intros (Hb & Hs & Hc & Hso & Hcs & Hpt & Hpa & Hf) Hl. subst fn.
+  destruct Hf as (Hm & Hse & Hd). repeat split; auto.
+  - rewrite app_length. simpl in *. lia.
+  - rewrite <- app_assoc. simpl. rewrite Hd. f_equal. rewrite app_length. simpl. lia.
+Qed.
+
+Lemma live_pre_ok t p : tinv t p -> fin t = Live -> pre_ok t.
+Proof.
+  unfold tinv, pre_ok, em. intros (Hb & Hs & Hc & Hso & Hcs & Hpt & Hpa & Hf) Hl. rewrite Hl in Hf.
+  destruct Hf as (Hm & Hse & Hd).
+  assert (length (dcur t) + length p <= length (skipn (base t) (log t))) by (rewrite skipn_length; lia).
+  split; [lia|]. eapply app_firstn_split; eauto.
+Qed.
+
+Lemma kill_cases t late :
+  t_kill Generic late t = t \/
+  (proc t = Running /\ t_kill Generic late t = t_write Generic (firstn late (todo t)) (skipn late (todo t)) Killed t).
+Proof. unfold t_kill. destruct (proc t); auto. Qed.
+
+(* STOP on a trial that is not completed: stop_trial *)
+Lemma tinv_stop t p p' late :
+  tinv t p -> fin t = Live -> tinv (set_fin Decided (t_stop Generic late t)) p'.
+Proof.
+  intros H Hl. pose proof (live_pre_ok _ _ H Hl) as Hpre. revert H Hpre.
+  unfold t_stop, t_kill, t_write, set_fin, set_mark, tinv, pre_ok, em.
+  destruct t as [lg td pr mk sn cs nr cu dc bs fn pa]; simpl in *. subst fn.
+  intros (Hb & Hs & Hc & Hso & Hcs & Hpt & Hpa & (Hm & Hse & Hd)) (Hpl & Hpd). subst mk.
+  assert (cs <> Paused) by (intro; specialize (Hcs H); congruence).
+  destruct pr; simpl; repeat split; auto; try congruence; try lia.
+  all: try (rewrite ?app_length; lia).
+  all: try (rewrite skipn_app_le by lia).
+  all: try (rewrite ?app_length; lia).
+  - rewrite Hc. rewrite <- app_assoc. f_equal. symmetry. apply firstn_skipn.
+  - rewrite firstn_app_le; auto.
+Qed.
+
+(* PAUSE with no report in the window: pause_trial *)
+Lemma tinv_pause0 t p p' :
+  tinv t p -> fin t = Live -> seen t = length (log t) ->
+  tinv (set_fin Decided (t_pause Generic 0 t)) p'.
+Proof.
+  intros H Hl Hsn. pose proof (live_pre_ok _ _ H Hl) as Hpre. revert H Hpre Hsn.
+  unfold t_pause, t_kill, t_write, set_fin, set_mark, set_cstat, tinv, pre_ok, em.
+  destruct t as [lg td pr mk sn cs nr cu dc bs fn pa]; simpl in *. subst fn.
+  intros (Hb & Hs & Hc & Hso & Hcs & Hpt & Hpa & (Hm & Hse & Hd)) (Hpl & Hpd) Hsn. subst mk.
+  destruct pr; simpl; rewrite ?app_nil_r; repeat split; auto; try congruence; try lia.
+  all: right; left; repeat split; auto; congruence.
+Qed.
+
+(* STOP on a trial the poll showed as completed: nothing is sent to the backend *)
+Lemma tinv_stop_completed t p p' :
+  tinv t p -> fin t = Live -> seen t = length (log t) -> status_of t = Completed ->
+  tinv (set_fin Decided t) p'.
+Proof.
+  intros H Hl Hsn Hst. pose proof (live_pre_ok _ _ H Hl) as Hpre. revert H Hpre Hsn Hst.
+  unfold set_fin, tinv, pre_ok, em, status_of.
+  destruct t as [lg td pr mk sn cs nr cu dc bs fn pa]; simpl in *. subst fn.
+  intros (Hb & Hs & Hc & Hso & Hcs & Hpt & Hpa & (Hm & Hse & Hd)) (Hpl & Hpd) Hsn Hst. subst mk.
+  destruct pr; try discriminate. repeat split; auto.
+Qed.
+
+Lemma skipn_skipn' {A} x y (l : list A) : skipn x (skipn y l) = skipn (x + y) l.
+Proof.
+  revert l. induction y as [|y IH]; intros l.
+  - rewrite Nat.add_0_r. reflexivity.
+  - rewrite Nat.add_succ_r. destruct l as [|a l]; simpl; [apply skipn_nil | apply IH].
+Qed.
+
+(* ---- one polled trial in fetch_status_results ------------------------------------------ *)
+Lemma tinv_fetch_one t p :
+  tinv t p -> (fin t <> Live -> p = []) ->
+  let new := new_metrics t in
+  let t1 := set_cstat (status_of t) (add_seen (length new) t) in
+  tinv t1 (p ++ new) /\ (fin t <> Live -> new = []) /\ (fin t = Live -> seen t1 = length (log t1)).
+Proof.
+  unfold new_metrics, status_of, set_cstat, add_seen, tinv, pre_ok, em.
+  destruct t as [lg td pr mk sn cs nr cu dc bs fn pa]; simpl.
+  intros (Hb & Hs & Hc & Hso & Hcs & Hpt & Hpa & Hf) Hp.
+  destruct fn.
+  - (* Live *)
+    destruct Hf as (Hm & Hse & Hd). subst mk.
+    assert (Hnew : (match match pr with ExitOk => Completed | ExitFail => Failed | _ => InProgress end with
+                    | Paused | Stopped => [] | _ => skipn sn lg end) = skipn sn lg) by (destruct pr; reflexivity).
+    rewrite Hnew. clear Hnew. rewrite skipn_length.
+    split; [|split; [congruence | intros _; lia]].
+    repeat split; auto; try lia.
+    + destruct pr; discriminate.
+    + rewrite app_length, skipn_length. lia.
+    + rewrite app_length, skipn_length.
+      assert (Hn : sn = (length dc + length p) + bs) by lia.
+      rewrite app_assoc, Hd. rewrite Hn at 1. rewrite <- skipn_skipn'.
+      rewrite firstn_skipn. symmetry. apply firstn_all2. rewrite skipn_length. lia.
+  - (* Decided *)
+    simpl.
+    destruct Hf as (Hpre & Hmk).
+    assert (Hnew : (match match mk with StopMark | BothMark => Stopped | PauseMark => Paused
+                                | NoMark => match pr with ExitOk => Completed | ExitFail => Failed | _ => InProgress end end with
+                    | Paused | Stopped => [] | _ => skipn sn lg end) = []).
+    { destruct Hmk as [->|[(-> & _)|(-> & -> & ->)]]; auto. simpl. apply skipn_all. }
+    rewrite Hnew. simpl. rewrite Nat.add_0_r.
+    split; [|split; [auto | congruence]].
+    repeat split; auto.
+    all: try apply Hpre.
+    all: destruct Hmk as [->|[(-> & _)|(-> & _ & ->)]]; simpl; auto; discriminate.
+  - (* DoneOk *)
+    simpl. destruct Hf as (-> & -> & -> & Hd). simpl.
+    rewrite skipn_all. simpl. rewrite Nat.add_0_r.
+    split; [|split; [auto | congruence]]. repeat split; auto. all: try discriminate.
+  - (* DoneFail *)
+    simpl. destruct Hf as (-> & -> & -> & Hd). simpl.
+    rewrite skipn_all. simpl. rewrite Nat.add_0_r.
+    split; [|split; [auto | congruence]]. repeat split; auto. all: try discriminate. all: try apply Hd.
+Qed.
+
+(* ------------------------------------------------------------------ *)
+(* invariant of the trial table; loop invariant of _update_running_trials *)
+(* ------------------------------------------------------------------ *)
+Definition SI (ts : list tr) : Prop := forall j t, nth_error ts j = Some t -> tinv t [].
+
+Definition LI (rest : list (nat * rep)) (done ids : list nat) (ts : list tr) : Prop :=
+  forall j t, nth_error ts j = Some t ->
+    tinv t (pend_of j rest) /\ (In j done -> fin t <> Live) /\
+    (fin t <> Live -> ~ In j done -> pend_of j rest = []) /\
+    ((In j ids \/ pend_of j rest <> []) -> fin t = Live -> seen t = length (log t)).
+
+Lemma SI_LI ts : SI ts -> LI [] [] [] ts.
+Proof.
+  intros H j t Hj. split; [exact (H j t Hj)|]. split; [intros []|]. split; [reflexivity|].
+  intros [[]|N] _. exfalso. apply N. reflexivity.
+Qed.
+
+Lemma fetch_generic_LI ids : forall ts b0 ids0 ts' b,
+  LI b0 [] ids0 ts -> fetch_generic ids ts = (ts', b) -> LI (b0 ++ b) [] (ids0 ++ ids) ts'.
+Proof.
+  induction ids as [|i r IH]; intros ts b0 ids0 ts' b H F; simpl in F.
+  - inversion F; subst. rewrite !app_nil_r. exact H.
+  - destruct (nth_error ts i) as [t|] eqn:E.
+    + destruct (fetch_generic r (upd i (fun t0 => set_cstat (status_of t0) (add_seen (length (new_metrics t)) t0)) ts))
+        as [ts2 b2] eqn:F2.
+      inversion F; subst. clear F.
+      apply (IH _ (b0 ++ map (pair i) (new_metrics t)) (ids0 ++ [i])) in F2.
+      * rewrite <- !app_assoc in F2. exact F2.
+      * intros j t' Hj. apply nth_upd_inv in Hj. destruct Hj as [[N Hj]|[Eij [t0 [Hj Et]]]]; [|subst j t'].
+        -- destruct (H j t' Hj) as (H1 & H2 & H3 & H4).
+           rewrite pend_of_app, (pend_of_pair_other i j) by auto. rewrite app_nil_r.
+           split; [exact H1|]. split; [exact H2|]. split; [exact H3|].
+           intros [Hin|Hp] Hl; apply H4; auto.
+           apply in_app_or in Hin. destruct Hin as [Hin|[Hin|[]]]; auto; try congruence.
+        -- rewrite E in Hj. inversion Hj; subst t0. clear Hj.
+           destruct (H i t E) as (H1 & H2 & H3 & H4).
+           assert (Hp : fin t <> Live -> pend_of i b0 = []) by (intros; apply H3; auto).
+           destruct (tinv_fetch_one t (pend_of i b0) H1 Hp) as (G1 & G2 & G3).
+           rewrite pend_of_app, pend_of_pair_same.
+           split; [exact G1|]. split; [intros []|]. split.
+           ++ intros Hn _. simpl in Hn. rewrite Hp, G2 by exact Hn. reflexivity.
+           ++ intros _ Hl. apply G3. exact Hl.
+    + apply (IH _ b0 (ids0 ++ [i])) in F.
+      * rewrite <- app_assoc in F. exact F.
+      * intros j t' Hj. destruct (H j t' Hj) as (H1 & H2 & H3 & H4).
+        split; [exact H1|]. split; [exact H2|]. split; [exact H3|].
+        intros [Hin|Hp] Hl; apply H4; auto.
+        apply in_app_or in Hin. destruct Hin as [Hin|[Hin|[]]]; auto; try congruence.
+Qed.
+
+Lemma ss_app_l {A} (R : A -> A -> Prop) a b : StronglySorted R (a ++ b) -> StronglySorted R a.
+Proof.
+  induction a as [|x a IH]; simpl; intros H; [constructor|].
+  inversion H as [|? ? Hs Hf]; subst. constructor; auto.
+  apply Forall_app in Hf. tauto.
+Qed.
+Lemma ss_app_r {A} (R : A -> A -> Prop) a b : StronglySorted R (a ++ b) -> StronglySorted R b.
+Proof. induction a as [|x a IH]; simpl; intros H; auto. inversion H; auto. Qed.
+
+Lemma pend_sorted t p : tinv t p -> (fin t <> Live -> p = []) -> StronglySorted rle p.
+Proof.
+  unfold tinv. intros (Hb & Hs & Hc & Hso & Hcs & Hpt & Hpa & Hf) Hp.
+  destruct (fin t); try (rewrite Hp by congruence; constructor).
+  destruct Hf as (_ & _ & Hd).
+  rewrite Hc in Hso. apply ss_app_l in Hso.
+  rewrite <- (firstn_skipn (length (dcur t) + length p) (em t)) in Hso. apply ss_app_l in Hso.
+  rewrite <- Hd in Hso. apply ss_app_r in Hso. exact Hso.
+Qed.
+
+Lemma LI_sort b ids ts : LI b [] ids ts -> LI (sort_ts b) [] ids ts.
+Proof.
+  intros H j t Hj. destruct (H j t Hj) as (H1 & H2 & H3 & H4).
+  assert (Hso : StronglySorted rle (pend_of j b)) by (eapply pend_sorted; eauto).
+  rewrite (pend_of_sort j b Hso).
+  split; [exact H1|]. split; [exact H2|]. split; [exact H3|exact H4].
+Qed.
+
+Definition quiet_decs (decs : list (dec * nat)) : Prop :=
+  Forall (fun d => fst d = PAUSE -> snd d = 0) decs.
+
+Lemma mem_nat_In x l : mem_nat x l = true <-> In x l.
+Proof.
+  induction l as [|y l IH]; simpl; [split; [discriminate|tauto]|].
+  rewrite orb_true_iff, IH, Nat.eqb_eq. split; intros [H|H]; auto.
+Qed.
+
+Lemma pend_of_cons_other i j r rest : i <> j -> pend_of j ((i, r) :: rest) = pend_of j rest.
+Proof.
+  intros N. rewrite pend_of_cons, pend_of_single. unfold is_id. simpl.
+  destruct (Nat.eqb_spec i j); [contradiction|reflexivity].
+Qed.
+Lemma pend_of_cons_same i r rest : pend_of i ((i, r) :: rest) = r :: pend_of i rest.
+Proof. rewrite pend_of_cons, pend_of_single. unfold is_id. simpl. rewrite Nat.eqb_refl. reflexivity. Qed.
+
+(* one decided trial: the table after the decision satisfies the invariant for the rest *)
+Lemma LI_decide i r rest done ids ts f :
+  LI ((i, r) :: rest) done ids ts -> ~ In i done ->
+  (forall t, nth_error ts i = Some t -> fin t = Live -> seen t = length (log t) ->
+             tinv (t_deliver r t) (pend_of i rest) ->
+             fin (f (t_deliver r t)) <> Live /\ forall p, tinv (f (t_deliver r t)) p) ->
+  LI rest (i :: done) ids (upd i f (upd i (t_deliver r) ts)).
+Proof.
+  intros H Hnd Hf j t' Hj.
+  apply nth_upd_inv in Hj. destruct Hj as [[N Hj]|[Eij [t1 [Hj Et]]]]; [|subst j t'].
+  - rewrite nth_upd_other in Hj by auto. destruct (H j t' Hj) as (H1 & H2 & H3 & H4).
+    rewrite pend_of_cons_other in * by auto.
+    repeat split; auto.
+    + intros [Hin|Hin]; [congruence|auto].
+    + intros Hn Hnin. apply H3; auto. intros Hin. apply Hnin. right; auto.
+  - apply nth_upd_inv in Hj. destruct Hj as [[N _]|[_ [t [Hj Et]]]]; [congruence|subst t1].
+    destruct (H i t Hj) as (H1 & H2 & H3 & H4). rewrite pend_of_cons_same in *.
+    assert (Hl : fin t = Live).
+    { destruct (fin t) eqn:Ef; auto; exfalso; assert (r :: pend_of i rest = []) by (apply H3; auto; congruence); discriminate. }
+    assert (Hs : seen t = length (log t)) by (apply H4; auto; right; discriminate).
+    destruct (Hf t Hj Hl Hs (tinv_deliver _ _ _ H1 Hl)) as (G1 & G2).
+    repeat split; auto.
+    + intros _ Hnin. exfalso. apply Hnin. left; auto.
+    + intros _ Hl'. congruence.
+Qed.
+
+Lemma status_at_nth ts i t : nth_error ts i = Some t -> status_at ts i = status_of t.
+Proof. unfold status_at. intros ->. reflexivity. Qed.
+
+Lemma status_eqb_eq a b : status_eqb a b = true <-> a = b.
+Proof. destruct a, b; simpl; split; intros H; try reflexivity; try discriminate. Qed.
+
+Lemma update_loop_LI batch : forall decs done ids ts out ts' out' done',
+  LI batch done ids ts -> quiet_decs decs ->
+  update_loop Generic batch decs done ts out = (ts', out', done') ->
+  LI [] done' ids ts'.
+Proof.
+  induction batch as [|[i r] rest IH]; intros decs done ids ts out ts' out' done' H Hq F; simpl in F.
+  - inversion F; subst. exact H.
+  - destruct (mem_nat i done) eqn:Em.
+    + (* the trial is in done_trials: the result is skipped *)
+      apply mem_nat_In in Em. eapply IH; [|exact Hq|exact F].
+      intros j t Hj. destruct (H j t Hj) as (H1 & H2 & H3 & H4).
+      destruct (Nat.eq_dec i j) as [<-|N].
+      * specialize (H2 Em). repeat split; auto.
+        -- eapply tinv_pend_irrel; eauto.
+        -- intros _ Hn. contradiction.
+        -- intros _ Hl. congruence.
+      * rewrite pend_of_cons_other in * by auto. repeat split; auto.
+    + assert (Hnd : ~ In i done) by (intros Hin; apply mem_nat_In in Hin; congruence).
+      assert (Hq' : quiet_decs (snd (next_dec decs)) /\ (fst (fst (next_dec decs)) = PAUSE -> snd (fst (next_dec decs)) = 0)).
+      { destruct decs as [|[d l] ds]; simpl; [split; [constructor|discriminate]|].
+        inversion Hq; subst. split; auto. }
+      destruct (next_dec decs) as [[d late] decs'] eqn:En. simpl in Hq'. destruct Hq' as (Hq1 & Hq2).
+      destruct d.
+      * (* CONTINUE *)
+        eapply IH; [|exact Hq1|exact F].
+        intros j t' Hj. apply nth_upd_inv in Hj. destruct Hj as [[N Hj]|[Eij [t [Hj Et]]]]; [|subst j t'].
+        -- destruct (H j t' Hj) as (H1 & H2 & H3 & H4). rewrite pend_of_cons_other in * by auto. repeat split; auto.
+        -- destruct (H i t Hj) as (H1 & H2 & H3 & H4). rewrite pend_of_cons_same in *.
+           assert (Hl : fin t = Live).
+           { destruct (fin t) eqn:Ef; auto; exfalso; assert (r :: pend_of i rest = []) by (apply H3; auto; congruence); discriminate. }
+           assert (Hs : seen t = length (log t)) by (apply H4; auto; right; discriminate).
+           repeat split; auto.
+           ++ apply tinv_deliver; auto.
+           ++ intros Hin. contradiction.
+           ++ intros Hn. simpl in Hn. congruence.
+      * (* PAUSE *)
+        rewrite (Hq2 eq_refl) in F.
+        eapply IH; [|exact Hq1|exact F].
+        apply LI_decide; auto.
+        intros t Hj Hl Hs Hd. split; [simpl; discriminate|].
+        intros p. eapply tinv_pause0; eauto.
+      * (* STOP *)
+        eapply IH; [|exact Hq1|exact F].
+        destruct (status_eqb (status_at ts i) Completed) eqn:Es.
+        -- apply LI_decide; auto.
+           intros t Hj Hl Hs Hd. split; [simpl; discriminate|].
+           intros p. apply status_eqb_eq in Es. rewrite (status_at_nth _ _ _ Hj) in Es.
+           eapply tinv_stop_completed; eauto.
+        -- apply LI_decide; auto.
+           intros t Hj Hl Hs Hd. split; [simpl; unfold t_stop, t_kill; destruct (proc (set_mark _ _)); simpl; discriminate|].
+           intros p. eapply tinv_stop; eauto.
+Qed.
